@@ -151,6 +151,8 @@ def run(tier, seed, replay=None):
                              dict(cases=[list(c) for c in cases[:ci]], event=rec))
             else:
                 ck.note('rejection at event %d not reproduced on re-run (neither alone nor after its history); ignored' % idx)
+    if not replay and not ck.violations:
+        vlib.concurrent_pass(ck, wd, 'Trace_Conv', 'Trace_Conv.cfg', lambda cp, tp: [exe, cp, tp], write_cases, cases, 'conversions', max_cases=2500)
     ck.cov['cases'] = len(cases)
     ck.cov['rejected_records'] = len(v['rejected'])
     return ck.finish()
